@@ -1,7 +1,7 @@
 (* Non-vacuity for C03: the "idx" wiring of the harness passes the well-formedness check for its
    unique indexes, and a concrete history exercises hand-over and swap of unique values. *)
 From Coq Require Import List NArith Bool.
-From Storage Require Import Base.Bytes Store.Model Store.WfSchema Store.WfSetIdx Store.UniqueProofs Store.UniqueRejectProofs.
+From Storage Require Import Base.Bytes Store.Model Store.WfSchema Store.WfSetIdx Store.UniqueProofs Store.UniqueRejectProofs Store.UniqueOnlyIfProofs.
 Import ListNotations.
 Open Scope N_scope.
 
@@ -180,3 +180,36 @@ Example set_index_on_backref_set_not_mirrored :
   wf_setidx_b bad_schema n_emp n_reports = false /\
   get_set bad_schema st n_emp [97] n_reports = [[98]] /\ sidx st n_emp n_reports = [].
 Proof. vm_compute. repeat split; reflexivity. Qed.
+
+(* ---------------------------------------------------------------- ... and only then : unique_duplicate_only_when_held_update, _create *)
+(* the hypotheses of the two theorems hold for emp in st3: emp is a root store and each of its unique indexes
+   (name, nick) is well-formed and mirrors the entities *)
+Example only_if_hyps : is_child idx_schema n_emp = false /\ all_unique_ok idx_schema n_emp st3.
+Proof.
+  split; [vm_compute; reflexivity|]. unfold st3. apply all_unique_ok_reachable. intros f nl Hin.
+  vm_compute in Hin.
+  repeat (destruct Hin as [Hin|Hin]; [try discriminate Hin; inversion Hin; subst; vm_compute; reflexivity|]).
+  contradiction.
+Qed.
+(* the update of dup_update_result, as it runs in the root store, answers EDuplicate, and the witness the theorem
+   promises is a: another present entity holding z in the unique field name *)
+Example only_if_update_result :
+  update_in idx_schema (mkOctx false []) (st3, []) n_emp [98] [(n_name, Some [122])] [] (Some [n_name]) = Err EDuplicate.
+Proof. vm_compute. reflexivity. Qed.
+Example only_if_update_witness :
+  dup_at idx_schema n_emp n_name st3 [98]
+    (new_f idx_schema n_emp n_name false false [(n_name, Some [122])] (Some [n_name]) (cur_ent n_emp st3 [98])).
+Proof.
+  split; [vm_compute; reflexivity|]. exists [97]. split; [intros H; discriminate|]. split; vm_compute; reflexivity.
+Qed.
+(* the second alternative of the theorems is not empty either: two managers, b takes the level a holds - every
+   hook of the root store emp succeeds, the unique index of the CHILD store mgr reports the duplicate *)
+Definition mk_mgr (i nm lv : str) : op :=
+  OCreate n_mgr i false [(n_name, Some nm); (n_nick, None); (n_boss, None); (n_deptf, Some [100]); (n_level, Some lv)] [(n_roles, [])].
+Definition stm2 : state := run_txs idx_schema 8 st_empty
+  [ mkTx false [] [OCreate n_dept [100] false [(n_title, Some [116])] [(n_tagsx, [])]] false;
+    mkTx false [] [mk_mgr [97] [120] [49]; mk_mgr [98] [121] [50]] false ].
+Example only_if_child_index_reports :
+  uidx stm2 n_emp n_level = [([49], [97]); ([50], [98])] /\
+  update_in idx_schema (mkOctx false []) (stm2, []) n_mgr [98] [(n_level, Some [49])] [] (Some [n_level]) = Err EDuplicate.
+Proof. vm_compute. split; reflexivity. Qed.
